@@ -464,6 +464,11 @@ theorem term_of_body {L i : Nat} {nd : Node} (hnd : cx.g[i]? = some nd) (hw : Wr
       refine ⟨n + 1, ?_⟩
       simp only [run, nodeCall, hnd, hwr, limitBytesCall, h0, Option.map_some]
       exact ⟨_, rfl⟩
+    | changeControl kc =>
+      obtain ⟨n, r0, h0⟩ := nodeCore_term cx i h a m { env with ctl := kc } st hin hrem
+      refine ⟨n + 1, ?_⟩
+      simp only [run, nodeCall, hnd, hwr, h0, Option.map_some]
+      exact ⟨_, rfl⟩
     | changeState mu =>
       obtain ⟨n, r0, h0⟩ := nodeCore_term cx i h a m { env with sd := env.sd + 1 } st hin hrem
       refine ⟨n + 1, ?_⟩
@@ -480,7 +485,7 @@ theorem afterBody_ok (i : Nat) (a : AMode) (act : ActionSpec) (sd : Nat) (saved 
   unfold afterBody at h
   split at h
   · rename_i e he; exact absurd h (by simp [he])
-  · rename_i hf; exact absurd h (by simp [hf])
+  · exact absurd h (failureHook_res_ne_ok _ _ _ _)
   · assumption
 
 theorem guardRestore_ok_st {g : RMode} {c : Cursor} {r : Ret} (h : r.res = .ok) : (guardRestore g c r).st = r.st := by
@@ -495,7 +500,7 @@ theorem nodeCore_adv {i : Nat} {nd : Node} (h : BodyAdv cx nd.kind) {n : Nat} {a
   · simp only [Option.map_eq_some_iff] at hr
     obtain ⟨r0, h0, rfl⟩ := hr
     simp only [guardRestore_res] at hok
-    have hok0 := afterBody_ok cx _ _ _ _ _ _ hok
+    have hok0 := afterBody_ok (cx.withCtl env.ctl) _ _ _ _ _ _ hok
     have := h n a _ env st r0 h0 hok0
     rw [guardRestore_ok_st (by simpa using hok)]
     simpa using this
@@ -540,6 +545,7 @@ theorem cons_of_body {i : Nat} (h : ∀ nd, cx.g[i]? = some nd → BodyAdv cx nd
       · simp only [Option.map_eq_some_iff] at h0
         obtain ⟨r1, h1, rfl⟩ := h0
         simpa using ih _ _ _ _ _ h1 (by simpa using hok)
+      · exact nodeCore_adv cx (h nd hnd) h0 hok
 
 end
 end Pegtl
